@@ -463,11 +463,12 @@ class MemLoc:
 
 
 class State:
-    __slots__ = ("env", "cons", "cache", "trail", "dead", "gen", "joined")
+    __slots__ = ("env", "cons", "cache", "trail", "dead", "gen", "joined", "lost")
 
     def __init__(self):
         self.gen = {}
         self.joined = False
+        self.lost = frozenset()    # symbols about which a join on the way here dropped a constraint of some side
         self.env = {}
         self.cons = {}      # key -> (t, c)
         self.cache = {}
@@ -482,7 +483,21 @@ class State:
         s.trail = self.trail
         s.gen = dict(self.gen)
         s.joined = self.joined
+        s.lost = self.lost
         return s
+
+    def cone(self, syms):
+        """symbols connected to syms through the constraints"""
+        want = set(syms)
+        rows = [set(s for s, v in k) for k in self.cons]
+        changed = True
+        while changed:
+            changed = False
+            for r in rows:
+                if not r <= want and r & want:
+                    want |= r
+                    changed = True
+        return want
 
     def add(self, lin):
         """assume lin >= 0"""
@@ -599,6 +614,7 @@ class LinAnalysis:
         self.track_writes = False   # remember how far writes into each area reached (USEDCOVER)
         self.flex = {}             # record -> (member array, bytes before it): inline area that extends to the end of the allocation
         self.track_wraps = False   # unsigned results that may have wrapped are resolved once a later test decides it
+        self.taint_exact = bool(os.environ.get("LIN_TAINT"))   # a failure behind a join counts as exact when the join lost nothing in the obligation's cone
         self.indirect_hook = None  # hook(an, st, fr, call, args) at calls through function pointers without a contract
         self.exit_hook = None      # hook(an, st, fr, head, from block, to block) on every edge that leaves a loop
         self.noeffect = 0          # > 0 while a condition is read again for refinement: steps and assignments are not repeated
@@ -847,12 +863,17 @@ class LinAnalysis:
         return st, fr
 
     # ---- obligations -----------------------------------------------------------------------------------------
-    def oblige(self, kind, fr, e, ok, detail, st=None):
+    def oblige(self, kind, fr, e, ok, detail, st=None, syms=None):
         f = fr.f
         st = st if st is not None else self.cur
+        exact = not (st is not None and st.joined)
+        if not exact and not ok and syms is not None and self.taint_exact:
+            # joins on the way dropped constraints, but none about anything this obligation depends on: every side of those
+            # joins had exactly these constraints over the obligation's cone of influence, the verdict is that of each side
+            exact = not (st.cone(syms) & st.lost)
         self.obls.append(Obligation(kind, f, e.get("l", f.line) if isinstance(e, dict) else f.line,
                                     show(e, f) if isinstance(e, dict) else str(e), ok, detail, self.root.name if self.root else "", fr.chain(),
-                                    exact=not (st is not None and st.joined)))
+                                    exact=exact))
 
     def check_access(self, st, fr, e, ptr, n, what, elem=1):
         """[ptr, ptr+n) inside its region"""
@@ -891,7 +912,7 @@ class LinAnalysis:
         if not ok:
             detail = "%s %r + [0, %r) not shown inside %s (size %r)%s; path: %s" % (
                 what, ptr.off, n, ptr.region.name, ptr.region.size, "" if lo_ok else " [start may precede the region]", " / ".join(st.trail[-8:]))
-        self.oblige("ACCESS", fr, e, ok, detail)
+        self.oblige("ACCESS", fr, e, ok, detail, st, syms=ptr.off.syms() | n.syms() | ptr.region.size.syms())
 
     def elem_object(self, st, fr, e, reg, off):
         """element of an array of records at byte offset off: the object that stands for it (created on first access,
@@ -1130,6 +1151,7 @@ class LinAnalysis:
             # whether this wrapped is often decided by the test the value sits in (`while (n--)`): remember what it stands for
             pend = [k for k in st.env if k[0] == "wrapof"]
             for k in pend[:-3]:
+                st.lost = st.lost | {k[1]} | st.env[k][0].syms()      # what that value stood for is forgotten
                 del st.env[k]
             st.env[("wrapof", list(w.t)[0])] = (v, rg[1] + 1)
         return w
@@ -1316,7 +1338,7 @@ class LinAnalysis:
                 return cur
             d = 1 if op == "++" else -1
             if isinstance(cur, Lin):
-                return cur - Lin.const(d)
+                return self._before_step(st, cur, d)
             if isinstance(cur, Ptr) and cur.region is not None:
                 sz = f.T(f.pointee(e["e"].get("t"))).get("sz", 1) or 1
                 return Ptr(cur.region, cur.off - Lin.const(d * sz), cur.maybe_null)
@@ -1590,6 +1612,15 @@ class LinAnalysis:
         b = self.ev(e["b"], st, fr)
         return self.arith(op, a, b, st, fr, e)
 
+    def _before_step(self, st, cur, d):
+        """value a variable had before `x += d` gave it the value cur: for a result that may have wrapped, what it stands for
+        (the unwrapped sum) minus the step, otherwise cur - d"""
+        if len(cur.t) == 1 and cur.c == 0 and list(cur.t.values()) == [1]:
+            rec = st.env.get(("wrapof", list(cur.t)[0]))
+            if rec is not None:
+                return rec[0] - Lin.const(d)
+        return cur - Lin.const(d)
+
     def evq(self, e, st, fr):
         """value of a condition operand without repeating its side effect (the condition was evaluated as an element)"""
         x = strip(e, all_casts=False)
@@ -1605,7 +1636,7 @@ class LinAnalysis:
         elif isinstance(inner, dict) and inner.get("k") == "un" and inner.get("op") in ("++", "--"):
             v = self.load(self.lval(inner["e"], st, fr), st, fr, inner["e"])
             if inner.get("post") and isinstance(v, Lin):
-                v = v - Lin.const(1 if inner["op"] == "++" else -1)
+                v = self._before_step(st, v, 1 if inner["op"] == "++" else -1)
         else:
             self.noeffect += 1
             try:
@@ -1793,6 +1824,19 @@ class LinAnalysis:
                 st.env[("mulpos", k[1], k[2])] = Lin.const(1)
                 st.add(m - Lin.sym(k[2]))
                 st.add(Lin.sym(k[1]) - Lin.const(1))
+        # two multiples of the same p that differ, differ by at least p
+        ks = [k for k in st.env if k[0] == "mul" and isinstance(st.env[k], Lin)]
+        for i, k1 in enumerate(ks):
+            for k2 in ks[i + 1:]:
+                if k1[2] != k2[2]:
+                    continue
+                for a_, b_ in ((k1, k2), (k2, k1)):
+                    if ("muldiff", a_[1], b_[1]) in st.env:
+                        continue
+                    d = st.env[a_] - st.env[b_]
+                    if st.entails(d - Lin.const(1)):
+                        st.env[("muldiff", a_[1], b_[1])] = Lin.const(1)
+                        st.add(d - Lin.sym(a_[2]))
 
     def resolve_wraps(self, st):
         for k in [k for k in st.env if k[0] == "wrapof"]:
@@ -1906,6 +1950,7 @@ class LinAnalysis:
                         return []
                     if self.track_wraps:
                         self.resolve_wraps(st)
+                    self.refine_products(st)
                     return [st]
                 if st.entails(-v):
                     st.add(-v - Lin.const(1))
@@ -1920,6 +1965,7 @@ class LinAnalysis:
                 return []
             if self.track_wraps:
                 self.resolve_wraps(st)
+            self.refine_products(st)
             return [st]
         if isinstance(v, (Ptr, ObjPtr, AddrOf)):
             return self.assume_nullness(src, v, not truth, st, fr)
@@ -2224,7 +2270,22 @@ class LinAnalysis:
                         if term["cls"] != "BinaryOperator" and cs.get("k") == "bin" and cs.get("op") in ("&&", "||") and cval(cs) is None:
                             deciding = cs["b"]
                         txt = show(deciding, f)[:40]
-                        for si, truth in ((0, True), (1, False)):
+                        short = None
+                        if deciding is not cond:
+                            # arrived over the short-circuit edge?  then the left operand decided and the right one is not evaluated
+                            self.noeffect += 1
+                            try:
+                                ta = self.truth(cs["a"], s, fr)
+                            finally:
+                                self.noeffect -= 1
+                            if cs["op"] == "||" and ta is True:
+                                short = 0
+                            elif cs["op"] == "&&" and ta is False:
+                                short = 1
+                        if short is not None:
+                            if succ[short] is not None:
+                                outs.append((succ[short], s))
+                        for si, truth in (() if short is not None else ((0, True), (1, False))):
                             if succ[si] is None:
                                 continue
                             base = s.copy() if si == 0 else s
@@ -2621,6 +2682,40 @@ class LinAnalysis:
                 q = -Lin(dict(kk), c) - Lin.const(1)
                 if infeasible(others + [(dict(q.t), q.c)]):
                     del res.cons[kk]
+        lost = set()
+        for sx in sts:
+            lost |= sx.lost
+        for k, h, lins in changed:
+            lost |= h.syms()
+            for v in lins:
+                lost |= v.syms()
+        for sx in ext:
+            for kk, c in sx.cons.items():
+                if not (kk in res.cons and res.cons[kk] <= c):
+                    lost |= {sy for sy, v in kk}
+        # locations some side knew and the result does not
+        def syms_of(v):
+            if isinstance(v, Lin):
+                return set(v.syms())
+            if isinstance(v, Ptr) and v.region is not None:
+                return set(v.off.syms()) | set(v.region.size.syms())
+            if isinstance(v, (tuple, list)):
+                out = set()
+                for x in v:
+                    out |= syms_of(x)
+                return out
+            return set()
+        for sx in sts:
+            for k, v in sx.env.items():
+                if k not in res.env or (res.env[k] != v and not isinstance(v, (Lin, Ptr))):
+                    lost |= syms_of(v)
+                    if k[0] in ("wrapof", "bits", "mul", "mulpos", "muldiff", "div", "divs"):
+                        # facts recorded about a symbol (what a wrapped value stands for, known bits, products)
+                        lost |= {x for x in k[1:] if isinstance(x, str)}
+                        for x in k[1:]:
+                            if isinstance(x, tuple):
+                                lost |= {y[0] for y in x if isinstance(y, tuple) and y and isinstance(y[0], str)}
+        res.lost = frozenset(lost)
         if DEBUG:
             print("JOIN widen=%s has_old=%s sides=%d" % (widen, has_old, len(sts)))
             for k, h, lins in changed:
